@@ -692,3 +692,81 @@ def atan2_directed_concrete(p, m):
         return None, 'UNCONFIRMED: abstract alarm (wrapper unsound relative to kernel contracts), %d concrete points were on the right side' % tried
     finally:
         mp.prec = old
+
+
+# ------------------------------------------------------------------------------ complex elementary wrappers: final rounding (C10)
+_STUB_PREC_IDX = {'mpf_atan2': 2, 'mpf_hypot': 2, 'mpf_pi': 0, 'mpf_pow': 2, 'mpc_pow': 2, 'mpf_nthroot': 2, 'mpc_nthroot': 2, 'mpf_e': 0, 'mpf_ln2': 0}
+_STUB_PAIR = {'mpf_cos_sin', 'mpf_cosh_sinh', 'mpf_cos_sin_pi'}
+_STUB_NAMES = ['mpf_log', 'mpf_exp', 'mpf_atan', 'mpf_atan2', 'mpf_cos_sin', 'mpf_cosh_sinh', 'mpf_cos_sin_pi', 'mpf_hypot', 'mpf_pi', 'mpf_pow',
+               'mpf_cos', 'mpf_sin', 'mpf_tan', 'mpf_cosh', 'mpf_sinh', 'mpf_tanh', 'mpf_acos', 'mpf_asin', 'mpf_atanh', 'mpf_asinh', 'mpf_acosh',
+               'mpf_expm1', 'mpf_log1p', 'mpf_sqrt', 'mpf_nthroot', 'mpf_e', 'mpf_ln2',
+               'mpc_log', 'mpc_exp', 'mpc_sqrt', 'mpc_abs', 'mpc_pow', 'mpc_cos', 'mpc_sin', 'mpc_tan', 'mpc_cosh', 'mpc_sinh', 'mpc_tanh',
+               'mpc_atan', 'mpc_acos', 'mpc_asin', 'mpc_cos_sin', 'mpc_arg', 'mpc_nthroot', 'acos_asin']
+
+
+def cwrap_bits(p):
+    """complex elementary functions of libmpc built from other kernels (mpc_atanh = (log(1+z) - log(1-z))/2, ...): with every
+    transcendental kernel they call replaced by a stub returning ARBITRARY canonical values of exactly the precision it was
+    asked for, both parts of the value handed back are canonical with at most `prec` bits."""
+    from mpmath.libmp import libelefun, libmpf, libmpc
+    from pysym.engine import NORMAL
+    fn, prec, rnd = p['fn'], p['prec'], p['rnd']
+    ob = Ob(wbump(p, 2 * prec + 160), timeout_s=p.get('_t', 60))
+    cnt = [0]
+
+    def mk(q):
+        cnt[0] += 1
+        n0 = len(ob.assume)
+        t = ob.mpf('k%d' % cnt[0], q)
+        G.SIDE.extend(ob.assume[n0:])
+        return t
+
+    def make_stub(name):
+        idx = _STUB_PREC_IDX.get(name, 1)
+        cplx = name.startswith('mpc_') and name not in ('mpc_abs', 'mpc_arg') or name == 'acos_asin'
+
+        def stub(eng, st, args, kw, fr):
+            q = args[idx] if len(args) > idx else kw.get('prec')
+            if isinstance(q, SInt) or q is None or not (1 <= q <= 4096):
+                raise Unsupported('stubbed kernel %s called with a symbolic or missing precision' % name)
+            if cplx or name in _STUB_PAIR:
+                return [(st, NORMAL, (mk(q), mk(q)))]
+            return [(st, NORMAL, mk(q))]
+        return stub
+    target = getattr(libmpc, fn)
+    for name in _STUB_NAMES:
+        for mod in (libelefun, libmpf, libmpc):
+            f = getattr(mod, name, None)
+            if f is not None and f is not target:
+                ob.eng.models[f] = make_stub(name)
+                break
+    z = (ob.mpf('re', 4, exp=p.get('rexp', -3)), ob.mpf('im', 3, exp=p.get('iexp', -2)))
+    outs = ob.run(target, [z, prec, rnd])
+
+    def okc(c):
+        return z3.Or(is_tuple(c, FZERO), canonical(c, prec))
+
+    def good(val, st):
+        if isinstance(val, tuple) and len(val) == 2 and isinstance(val[0], tuple):
+            return [okc(val[0]), okc(val[1])]
+        if isinstance(val, tuple) and len(val) == 4:
+            return okc(val)
+        return False
+    return finish(ob, ob.prove(outs, good))
+
+
+def cwrap_bits_concrete(p, m):
+    from mpmath.libmp import libmpc
+    fn, prec, rnd = p['fn'], p['prec'], p['rnd']
+    zs = [((m.get('re_sign', 0), m.get('re_man', 9), p.get('rexp', -3), 4), (m.get('im_sign', 0), m.get('im_man', 5), p.get('iexp', -2), 3)),
+          ((0, 9, -3, 4), (0, 5, -2, 3)), ((1, 13, -3, 4), (0, 7, -2, 3)), ((0, 11, 1, 4), (1, 5, 0, 3))]
+    for z in zs:
+        try:
+            r = getattr(libmpc, fn)(z, prec, rnd)
+        except Exception:
+            continue
+        parts = list(r) if isinstance(r[0], tuple) else [r]
+        bad = [c for c in parts if not O.canonical_concrete(tuple(c), prec)]
+        if bad:
+            return False, '%s(%r, %d, %r) returned parts with %s bits' % (fn, z, prec, rnd, [c[3] for c in parts])
+    return None, 'UNCONFIRMED: the sampled arguments give at most %d bits' % prec
